@@ -33,6 +33,7 @@ def cfg : Cfg :=
     dictsDistinct := Gen.C07.dictsDistinct
     procFactor := Gen.C07.procFactor
     procDigits := Gen.C07.procDigits
+    procScaleDelta := Gen.C07.procScaleDelta
     shapeOk := Gen.C07.shapeOk
       && (fldsOf Gen.C07.baseFields).isSome && (optOf Gen.C07.optFields).isSome
       && (fldsOf Gen.C07.totSub).isSome && (fldsOf Gen.C07.busySubReq).isSome
